@@ -92,7 +92,7 @@ pub fn any_cdata(l: &InputList) -> (r: bool) ensures r == has_cdata_spec(l.event
 #[verifier::external_body]
 pub fn string_or_empty(o: Option<String>) -> (r: String) ensures r@ == (match o { Some(s) => s@, None => Seq::<char>::empty() }) { unimplemented!() }
 #[verifier::external_body]
-pub fn string_push_str(s: &mut String, t: &String) ensures final(s)@ == old(s)@ + t@ { unimplemented!() }
+pub fn string_push_str(s: &mut String, t: &str) ensures final(s)@ == old(s)@ + t@ { unimplemented!() }
 pub open spec fn graphics_name(n: Seq<char>) -> bool {
     n == "circle"@ || n == "ellipse"@ || n == "image"@ || n == "line"@ || n == "path"@ || n == "polygon"@ || n == "polyline"@ || n == "rect"@ || n == "text"@ || n == "use"@ || n == "reuse"@
     || n == "box"@ || n == "point"@
@@ -366,8 +366,7 @@ impl EventGen for Container {
 //@ replace[R-typeann] <<<let mut inner_text = None;>>> => <<<let mut inner_text: Option<String> = None;>>>
 //@ replace[R-any] <<<let has_cdata = inner_events.iter().any(|e| e.cdata_string().is_some());>>> => <<<let has_cdata = any_cdata(&inner_events);>>>
 //@ replace-all[R-default] <<<inner_text.unwrap_or_default()>>> => <<<string_or_empty(inner_text)>>>
-//@ replace[R-string] <<<so_far.push_str(&t);>>> => <<<string_push_str(&mut so_far, &t);>>>
-//@ replace[R-string] <<<so_far.push_str(&c);>>> => <<<string_push_str(&mut so_far, &c);>>>
+//@ replace-re[R-string] <<<so_far\.push_str\(([^;]+)\);>>> => <<<string_push_str(&mut so_far, \1);>>>
 //@ before <<<let res = el.generate_events(context);>>>
 //@ | assert(context.current_depth + 1 == old(context).current_depth); // the element itself, dispatched again as an empty one, is not a nesting level of its own: the dispatcher counts it once @C17.depth.text_content_same_level
 //@ before <<<el.set_attr("text", text);>>>
